@@ -755,7 +755,7 @@ def scripted(big=False):
                             O('open_file', d='d0', name='RENAMED.TXT', mode='ReadOnly', as_='f0'), O('read', f='f0', n=upc), O('close_file', f='f0'),
                             O('open_dir', d='d0', name='SUB', as_='d1'), O('find', d='d1', name='F11.Z'), O('ext_rename', d='d1', name='F11.Z', to='G11.Z'),
                             O('find', d='d1', name='G11.Z'), O('find', d='d1', name='F11.Z'), O('iterate', d='d1'),
-                            O('ext_rename', d='d1', name='G11.Z', to='H11.Z'), O('open_file', d='d1', name='H11.Z', mode='ReadWriteAppend', as_='f1'),
+                            O('ext_rename', d='d1', name='G11.Z', to='H11.Z'), O('open_file', d='d1', name='H11.Z', mode='Append', as_='f1'),
                             O('write', f='f1', n=1), O('close_file', f='f1'), O('iterate', d='d1'), O('close_dir', d='d1')] + epilogue()
         add('S32-' + gname, img, ops, upc)
 
